@@ -28,7 +28,10 @@ EXPLANATION = (
     "three running values are updated together; R8.4 the default route is returned only when no specific route "
     "matched; R8.6 hosts: SessionManager returns a local interface only past `destination in its subnet` and `enabled`, "
     "falls back to the default gateway only after all local interfaces were tried, and uses the gateway's MAC/interface "
-    "exactly when no local resolution succeeded. NOT decided (not applicable to static analysis): end-to-end reachability / delivery success of permitted "
+    "exactly when no local resolution succeeded; R8.7 the route table holds what was added (RouteTable.add_route appends, on "
+    "every path, an entry built from all four arguments - or finds the identical entry present -, rewrites no existing entry, "
+    "and is the only writer of `routes`) and Router.process_frame hands a frame to a neighbour directly only on the "
+    "`destination in <that interface>.ip_network` edge (a warm ARP entry does not replace the route table). NOT decided (not applicable to static analysis): end-to-end reachability / delivery success of permitted "
     "exchanges over topologies, ARP behaviour under cold and warm caches, interleavings with interface toggles."
 )
 TECHNIQUE = "static: CFG must-pass for TTL, truth tables of addressee tests, well-founded-recursion check, order table of the route-selection guard"
@@ -138,7 +141,9 @@ def r8_2(ctx: Ctx) -> None:
         for mac, ip in itertools.product(("MINE", "OTHER", "ff:ff:ff:ff:ff:ff"), ("MYIP", "BCASTIP", "OTHERIP")):
             env = {"self.enabled": True, "frame.ip": "IP", "frame.ip.ttl": 5, "frame.ethernet.dst_mac_addr": mac,
                    "frame.ip.dst_ip_address": ip, "self.mac_address": "MINE", "self.ip_address": "MYIP",
-                   "self.ip_network.broadcast_address": "BCASTIP"}
+                   "self.ip_network.broadcast_address": "BCASTIP",
+                   # the sender is somebody else (a frame never comes back to the interface that sent it)
+                   "frame.ethernet.src_mac_addr": "SENDER", "frame.ip.src_ip_address": "SENDERIP"}
             ev = Evaluator(env, LocalDefs(f.node))
             out, node, tr = walk(g, ev)
             if out == "unknown":
@@ -358,6 +363,88 @@ def r8_6(ctx: Ctx) -> None:
                "direct ARP look-up only past `dst in interface.ip_network`")
 
 
+ROUTES_WRITERS = {"RouteTable.add_route": "appends one entry built from its arguments"}
+
+
+def r8_7(ctx: Ctx) -> None:
+    """Longest-prefix matching can only choose among the routes that are in the table, and a router may hand a frame to a neighbour
+    directly only when the destination is on that interface's subnet - everything else goes through the route table."""
+    ix = ctx.ix
+    ctx.rule("R8.7", "the route table holds what was added (add_route appends an entry built from all four arguments on every path, "
+                     "rewrites no existing entry; single writer of `routes`); Router.process_frame sends directly only on the "
+                     "`destination in <that interface>.ip_network` edge, otherwise it routes")
+    f = ix.method("RouteTable.add_route")
+    g = CFG(f.node)
+    ld = LocalDefs(f.node)
+    params = [a.arg for a in f.node.args.args[1:]]
+    apps = []
+    for n in g.nodes:
+        for c in node_calls(n):
+            if call_name(c) == "append" and unparse(c.func.value) == "self.routes" and c.args:
+                v = ld.expand(c.args[0])
+                built = isinstance(v, ast.Call) and call_name(v) == "RouteEntry" and all(
+                    any(k.arg == p_ and isinstance(k.value, ast.Name) and k.value.id == p_ for k in v.keywords) for p_ in params)
+                apps.append((n, built, unparse(v)[:90]))
+    if not apps:
+        raise AnalysisError("R8.7: RouteTable.add_route no longer appends to self.routes")
+    for n, built, txt in apps:
+        ctx.record("R8.7", ctx.key(f, "the appended entry carries address, mask, next hop and metric as given"), f.loc(n.ast), built, txt)
+
+    def already_there(e) -> bool:
+        # a return without appending is fine only when the very same entry is already in the table
+        if not (e.label and e.label[0] == "cond" and e.label[2] is True):
+            return False
+        x = ld.expand(e.label[1])
+        return isinstance(x, ast.Compare) and len(x.ops) == 1 and isinstance(x.ops[0], ast.In) and unparse(x.comparators[0]) == "self.routes" \
+            and isinstance(ld.expand(x.left), ast.Call) and call_name(ld.expand(x.left)) == "RouteEntry"
+
+    p = g.path_avoiding([g.exit], already_there, blocked_nodes={n.id for n, _, _ in apps})
+    ctx.record("R8.7", ctx.key(f, "every call adds its route"), f.loc(), p is None,
+               "every path to the end passes the append (or finds the identical entry already present)" if p is None else
+               "add_route can return without the route being in the table: a more specific (or cheaper) route that was declared is "
+               "missing when the best route is chosen", path_text(p))
+    rewrites = [f"line {n.lineno}: {unparse(n)[:60]}" for n in ast.walk(f.node) if isinstance(n, (ast.Assign, ast.AugAssign)) and any(
+        isinstance(t, ast.Attribute) and not (isinstance(t.value, ast.Name) and t.value.id == "self")
+        for t in (n.targets if isinstance(n, ast.Assign) else [n.target]))]
+    ctx.record("R8.7", ctx.key(f, "adding a route rewrites no other entry"), f.loc(), not rewrites,
+               "no store to an attribute of another object" if not rewrites else "an existing route is altered by adding another", rewrites[:4])
+    from ..inventory import stores_to_attr, only_called_from, recv_class
+    n_w = 0
+    rt = ix.cls("RouteTable")
+    for s_ in stores_to_attr(ix, ["routes"]):
+        rc = recv_class(ix, s_.fn, s_.recv) if s_.fn is not None else None
+        if not ((rc is not None and ix.is_subclass(rc, rt)) or (s_.fn is not None and s_.fn.cls is not None and ix.is_subclass(s_.fn.cls, rt) and unparse(s_.recv) == "self")):
+            continue
+        n_w += 1
+        ok = s_.owner in ROUTES_WRITERS or bool(only_called_from(ix, s_.fn, ROUTES_WRITERS))
+        ctx.record("R8.7", f"{s_.path}::{s_.owner}::{s_.kind} routes", s_.where, ok,
+                   ROUTES_WRITERS.get(s_.owner, "the route list is changed outside add_route"))
+    ctx.floor("R8.7", "writers of RouteTable.routes", n_w, 1)
+    # direct delivery
+    pf = ix.method("Router.process_frame")
+    gp = CFG(pf.node)
+    ldp = LocalDefs(pf.node)
+    sends = [(n, c) for n in gp.nodes for c in node_calls(n) if call_name(c) == "send_frame" and isinstance(c.func, ast.Attribute)]
+    if not sends:
+        raise AnalysisError("R8.7: Router.process_frame no longer sends frames itself")
+    for n, c in sends:
+        iface = unparse(c.func.value)
+
+        def on_subnet(e, iface=iface) -> bool:
+            if not (e.label and e.label[0] == "cond" and e.label[2] is True):
+                return False
+            x = ldp.expand(e.label[1])
+            return isinstance(x, ast.Compare) and len(x.ops) == 1 and isinstance(x.ops[0], ast.In) and unparse(x.comparators[0]) == f"{iface}.ip_network" \
+                and "dst_ip_address" in unparse(ldp.expand(x.left))
+
+        p = gp.path_avoiding([n], on_subnet)
+        ctx.record("R8.7", ctx.key(pf, f"direct delivery through {iface} only for destinations on its subnet"), pf.loc(n.ast), p is None,
+                   f"send_frame is reached only on `destination in {iface}.ip_network`; other destinations go to route_frame" if p is None else
+                   "a frame can be handed to a neighbour directly although its destination is not on that interface's subnet: the route "
+                   "table (longest prefix, ACLs of the routed path) is bypassed", path_text(p))
+
+
+
 def check(ctx: Ctx) -> None:
     ctx.rule("R8.4", "the default route is used only when no specific route matched")
     r8_6(ctx)
@@ -365,3 +452,4 @@ def check(ctx: Ctx) -> None:
     r8_2(ctx)
     r8_3(ctx)
     r8_5(ctx)
+    r8_7(ctx)
